@@ -1,5 +1,5 @@
-//! Generates `zoo_gen.rs` from `zoo/*.asn1`: one Rust module per ASN.1 module (compiled by asn1rs
-//! itself through `asn_to_rust!`) plus the registry list. The `.asn1` files are the single source.
+//! Generates `zoo_gen.rs` (zoo texts + registration order; the types are compiled by the zoo crates,
+//! see zoocrates/zoo_build.rs) and `corpus_gen.rs` (front-end corpus).
 use std::fmt::Write as _;
 use std::path::Path;
 
@@ -26,63 +26,52 @@ fn main() {
     files.sort_by_key(|p| rank(p));
     println!("cargo:rerun-if-changed=zoo/ORDER");
 
-    let mut out = String::new();
+    // the types themselves are compiled in the zoo crates (zoocrates/<crate>/FILES, in parallel); this
+    // crate keeps the texts (front-end corpus) and the registration order, and checks that the crates
+    // together cover exactly zoo/ORDER in that order
+    let groups: Vec<String> = std::fs::read_to_string("zoocrates/GROUPS").expect("zoocrates/GROUPS").lines().map(|l| l.trim().to_string()).filter(|l| !l.is_empty() && !l.starts_with('#')).collect();
+    println!("cargo:rerun-if-changed=zoocrates/GROUPS");
+    let mut covered: Vec<String> = Vec::new();
     let mut reg = String::new();
-    let mut reg_more = String::new();
+    for g in &groups {
+        if g.starts_with("---") {
+            covered.push("---".into());
+            reg.push_str("    prims(v);\n");
+            continue;
+        }
+        let f = format!("zoocrates/{g}/FILES");
+        println!("cargo:rerun-if-changed={f}");
+        for l in std::fs::read_to_string(&f).unwrap_or_else(|e| panic!("{f}: {e}")).lines() {
+            let l = l.trim();
+            if !l.is_empty() && !l.starts_with('#') {
+                covered.push(l.to_string());
+            }
+        }
+        let _ = writeln!(reg, "    {g}::register(v);");
+    }
+    let expected: Vec<String> = order.iter().map(|l| if l.starts_with("---") { "---".to_string() } else { l.clone() }).collect();
+    assert_eq!(covered, expected, "zoocrates/*/FILES (in the order of zoocrates/GROUPS) must equal zoo/ORDER");
+    let on_disk: Vec<String> = files.iter().map(|p| p.file_stem().unwrap().to_str().unwrap().to_string()).collect();
+    for f in &on_disk {
+        assert!(covered.contains(f), "zoo/{f}.asn1 is not listed in zoo/ORDER and a zoo crate");
+    }
+    let _ = marker;
+
+    let mut out = String::new();
     let mut texts = String::new();
     for path in &files {
         println!("cargo:rerun-if-changed={}", path.display());
         let stem = path.file_stem().unwrap().to_str().unwrap().to_string();
         let text = std::fs::read_to_string(path).unwrap();
-        assert!(!text.contains("\"####"), "zoo text must not contain \"####");
         let module = text
             .lines()
             .find(|l| !l.trim_start().starts_with("--") && !l.trim().is_empty())
             .and_then(|l| l.split_whitespace().next())
             .unwrap()
             .to_string();
-        let file_flags: Vec<String> = text
-            .lines()
-            .filter_map(|l| l.trim().strip_prefix("-- @file:"))
-            .flat_map(|l| l.split_whitespace().map(str::to_string).collect::<Vec<_>>())
-            .collect();
-        let _ = writeln!(out, "#[allow(dead_code, unused, clippy::all)]\npub mod {} {{\n    use asn1rs::prelude::*;\n    asn_to_rust!(r####\"{}\"####);\n}}", stem, text);
         let _ = writeln!(texts, "    ({:?}, {:?}, r####\"{}\"####),", stem, module, text);
-        for line in text.lines() {
-            let t = line.trim_start();
-            let mut it = t.splitn(2, "::=");
-            let (Some(name), Some(rest)) = (it.next(), it.next()) else { continue };
-            let name = name.trim();
-            if name.is_empty()
-                || !name.chars().next().unwrap().is_ascii_uppercase()
-                || !name.chars().all(|c| c.is_ascii_alphanumeric())
-                || name == module
-            {
-                continue;
-            }
-            if t.contains("DEFINITIONS") {
-                continue;
-            }
-            let mut flags: Vec<String> = file_flags.clone();
-            if let Some(idx) = rest.rfind("--") {
-                for tok in rest[idx + 2..].split_whitespace() {
-                    if let Some(f) = tok.strip_prefix('@') {
-                        flags.push(f.to_string());
-                    }
-                }
-            }
-            if flags.iter().any(|f| f == "noproto") {
-                flags.retain(|f| f != "proto" && f != "noproto");
-            }
-            let base = rank(path).0 < marker;
-            let _ = writeln!(
-                if base { &mut reg } else { &mut reg_more },
-                "    v.push(crate::zoo::ops::<{stem}::{name}>(\"{stem}.{name}\", {module:?}, &{flags:?}));",
-            );
-        }
     }
-    let _ = writeln!(out, "pub fn register(v: &mut Vec<crate::zoo::TypeOps>) {{\n{}}}", reg);
-    let _ = writeln!(out, "pub fn register_more(v: &mut Vec<crate::zoo::TypeOps>) {{\n{}}}", reg_more);
+    let _ = writeln!(out, "pub fn register_all(v: &mut Vec<crate::zoo::TypeOps>, prims: fn(&mut Vec<crate::zoo::TypeOps>)) {{\n{}}}", reg);
     let _ = writeln!(out, "/// (rust module, ASN.1 module name, text)\npub const ZOO_TEXTS: &[(&str, &str, &str)] = &[\n{}];", texts);
     let dest = Path::new(&std::env::var("OUT_DIR").unwrap()).join("zoo_gen.rs");
     std::fs::write(dest, out).unwrap();
